@@ -587,6 +587,9 @@ class TypedNode(Node):
             data = {
                 "str": node_data,
             }
+            # Add custom data_id if not calculated as hash by default.
+            if node._data_id != hash(node_data):
+                data["data_id"] = node._data_id
         else:
             data = Node._make_list_entry(node)
 
